@@ -91,3 +91,34 @@ PROPS["C17"] = {
     "outside_claim": ["X.509/PEM parsing", "gRPC querier pagination (FilteredPaginate offsets/limits)", "serials longer than the byte bound (2^159 is stated outside: 20 bytes)"],
     "assumptions": ["INV: stored certificates are unique per (owner, serial) — established by the create step checked here", "the signer of a message is the account in its Owner / ID.Owner field (C06)"],
 }
+
+ESC_1 = ["Harness_ESC_%s_1" % o for o in ["create", "deposit", "settle", "close", "paycreate", "withdraw", "payclose"]]
+ESC_2 = ["Harness_ESC_%s_2" % o for o in ["create", "deposit", "settle", "close", "paycreate", "withdraw", "payclose"]]
+CHAIN_STUBS = COMMON_STUBS + [
+    "KV store -> ordered association list with bytewise order decided by the solver; iterators are snapshots; gas ignored",
+    "codec Marshal/Unmarshal -> faithful deep copy (protobuf wire format not encoded)",
+    "sdk.Context -> height, stores, real EventManager, no-op logger",
+    "bank keeper -> harness ledger (Go code executed symbolically): AccountToModule fails iff the sender balance is short, ModuleToAccount fails iff the module balance is short; every transfer logged",
+    "bech32 -> bijection 'addr:'+20 bytes",
+]
+def esc_job(owner):
+    return {
+        "pkg": "x/escrow",
+        "files": ["harness/ESC/escrow.go"],
+        "shims": ["shim.go.tmpl", "shim_chain.go.tmpl"],
+        "quick": ESC_1 + ["Harness_ESC_close_2", "Harness_ESC_payclose_2", "Harness_ESC_settle_2"],
+        "thorough": ESC_1 + ESC_2,
+        "opts": {"timeout": 20000},
+        "owner": owner,
+        "reach": {"Harness_ESC_close_1": ["account-close-ok", "account-close-same-block"], "Harness_ESC_payclose_1": ["payment-close-ok", "payment-close-same-block"]},
+    }
+ESC_BOUNDS = {
+    "quick": "escrow keeper, one step from an arbitrary INV pre-state: focus account absent/open/closed/overdrawn with 0..1 payments (close/settle/payment-close also with 2) in any consistent state, a bystander account 't/12' with an open payment, outside-universe remainder R; all balances/rates/deposits unbounded integers in [0,2^100), heights in [1,2^40) with arbitrary gap incl. 0; operations AccountCreate/Deposit/Settle/Close, PaymentCreate/Withdraw/Close with arbitrary arguments",
+    "thorough": "all seven operations with up to 2 payments on the focus account",
+}
+PROPS["C03"] = {"jobs": [esc_job("C03")], "bounds": ESC_BOUNDS, "stubs": CHAIN_STUBS,
+    "outside_claim": ["more than 2 payments per account in one step", "x/bank internals"],
+    "assumptions": ["INV (DESIGN §4): W well-formedness, C01 sum, C03 record clauses are assumed of the pre-state and re-established of the post-state (induction over histories)", "a failing or panicking operation leaves the state unchanged (SDK transaction semantics)"]}
+PROPS["C01"] = {"jobs": [esc_job("C01")] + PROPS["C02"]["jobs"], "bounds": ESC_BOUNDS, "stubs": CHAIN_STUBS,
+    "outside_claim": ["x/bank internals, fees, IBC", "handler level (market/deployment) is covered by the chain-step harnesses when registered"],
+    "assumptions": PROPS["C03"]["assumptions"]}
